@@ -1,27 +1,25 @@
-"""C20 - inbound application messages reach the application in order, exactly once.
-Family "seq" of Session.tla; monitors C20_* of Monitors.tla on traces of the real engine."""
+"""C20 - keep-alive: heartbeats, test requests and dead-peer disconnect.
+Family "keep" of Session.tla; monitors C20_* (synchronous part; timer arming through the EventTimer hook)."""
 from lib import common, sessfam
 
 LEVEL = 'model_checking'
 PID = 'C20'
 FAMILY = 'keep'
 PROPS = ['P_C20']
+BASE = [{'role': 'acc', 'bs': 42}, {'role': 'init', 'bs': 42}, {'role': 'acc', 'bs': 42, 'hbOverride': True}]
+ALT = [{'role': 'acc', 'bs': 44, 'chunk': 2}, {'role': 'init', 'bs': 40}, {'role': 'acc', 'bs': 50}, {'role': 'init', 'bs': 44, 'chunk': 1}]
 
 
 def configs(ctx):
-    quick = ctx.tier == 'quick'
-    base = [dict(role='acc', bs=42, chunk=0), dict(role='acc', bs=42, chunk=2)]
-    alt = [dict(role='init', bs=44, chunk=0), dict(role='init', bs=40, chunk=2), dict(role='acc', bs=41, chunk=1),
-           dict(role='init', bs=50, chunk=0), dict(role='acc', bs=44, chunk=3), dict(role='init', bs=42, chunk=1)]
-    if quick:
-        return base + [alt[ctx.seed % len(alt)]]
-    return base + alt
+    if ctx.tier == 'quick':
+        return BASE + [ALT[(ctx.seed + i) % len(ALT)] for i in range(min(2, len(ALT)))]
+    return BASE + ALT
 
 
 def run(ctx):
-    sessfam.standard_run(ctx, PID, FAMILY, PROPS, configs(ctx),
-                         quick_budget=15000, thorough_budget=250000,
-                         statement='FromApp order / at-expected / advance-by-one / monotone counter')
+    sessfam.standard_run(ctx, PID, FAMILY, PROPS, configs(ctx), quick_budget=15000, thorough_budget=250000,
+                         quick_bounds={'maxIn': 6, 'maxOut': 3}, thorough_bounds={'maxIn': 6, 'maxOut': 4},
+                         statement='TestReqID echo, heartbeat on idle, test request on silence, disconnect on second silence, inbound cancels, timer arming, acceptor interval')
 
 
 def replay(ctx, path):
